@@ -6,7 +6,7 @@
      spec_ok  : the decidable specification, evaluated on the IMPLEMENTATION's answer
    Nothing here is proved; it is extracted to OCaml and run by the harness. *)
 From Coq Require Import List Arith NArith Bool.
-From MR Require Import Lib.Bytes Lib.Val Model.Index Model.Dag Model.Git Model.Tracking Model.CfgFile.
+From MR Require Import Lib.Bytes Lib.Val Model.Index Model.Dag Model.Git Model.Tracking Model.CfgFile Model.Sched.
 Import ListNotations.
 Open Scope nat_scope.
 
@@ -263,12 +263,10 @@ Definition dPending (v : val) : option (list (str * cdigest)) :=
   dOpt (fun m => map (fun e => (dStr (dNth e 0), dDigest (dNth e 1))) (dL m)) v.
 Definition ePending (pn : option (list (str * cdigest))) : val :=
   eOpt (fun m => VL (map (fun '(p, d) => VL [eStr p; eOpt eN d]) m)) pn.
-Definition dRepo (v : val) : repo str N :=
-  {| universe := dStrs (dNth v 0);
-     head := dTree (dNth v 1);
-     tracked := fun p => mem_str p (dStrs (dNth v 2));
-     work := dTree (dNth v 3);
-     ignored := fun p => mem_str p (dStrs (dNth v 4)) |}.
+Definition dRepo (v : val) : Git.repo str N :=
+  Git.Build_repo str N
+    (dStrs (dNth v 0)) (dTree (dNth v 1)) (fun p => mem_str p (dStrs (dNth v 2))) (dTree (dNth v 3))
+    (fun p => mem_str p (dStrs (dNth v 4))).
 
 Definition c_all_changes_opts := all_changes_opts str N cdigest str_eqb N.eqb cdigest_eqb csha None.
 Definition c_update_pending := update_pending str N cdigest str_eqb N.eqb cdigest_eqb csha None.
@@ -394,6 +392,56 @@ Definition check_cfgfile (v : val) : val :=
              (option_map (fun x => [x]) src) [gen] lock in
   VL [eB true; eB m; eB (Bool.eqb m impl_ok); eB (Bool.eqb m impl_ok)].
 
+
+(* ---------- C04 / C05 / C06 / C16: the scheduler ---------- *)
+Definition dDefn (v : val) : defn := match dnat v with 0 => Defined | 1 => Undefined | _ => NotExec end.
+Definition dPlan (v : val) : plan := map (fun c => map (fun g => map dDefn (dL g)) (dL c)) (dL v).
+Definition dTask (v : val) : task := (dnat (dNth v 0), dnat (dNth v 1), dnat (dNth v 2)).
+Definition eTask (t : task) : val := let '(c, g, k) := t in VL [enat c; enat g; enat k].
+Definition dChoice (v : val) : choice :=
+  let t := dTask (dNth v 1) in
+  match dnat (dNth v 0) with 0 => SchedStep | 1 => ChildExit t | 2 => Reap t | _ => ReapCancelled t end.
+Definition eStatus (r : status) : val :=
+  match r with
+  | Success => VL [VN 0; VL [VN 0]]
+  | Error c => VL [VN 1; eOpt enat c]
+  | SUndefined => VL [VN 2; VL []]
+  | SNotExec => VL [VN 3; VL []]
+  | Skipped => VL [VN 4; VL []]
+  end%N.
+Fixpoint iter_sched (P : plan) (fou : bool) (fuel : nat) (s : st) : st :=
+  match fuel with 0 => s | S k => iter_sched P fou k (sched_step P fou s) end.
+Definition plan_size (P : plan) : nat :=
+  fold_left (fun acc c => acc + 2 + fold_left (fun a g => a + 2 + length g) c 0) P 4.
+Definition task_leb (a b : task) : bool :=
+  let '(a1, a2, a3) := a in let '(b1, b2, b3) := b in
+  (a1 <? b1) || ((a1 =? b1) && ((a2 <? b2) || ((a2 =? b2) && (a3 <=? b3)))).
+Definition results_sorted (l : list (task * val)) : list (task * val) :=
+  (* insertion sort, lexicographic on (command, group, member) *)
+  fold_right (fun x acc =>
+     (fix ins (l : list (task * val)) := match l with
+        | [] => [x]
+        | y :: r => if task_leb (fst x) (fst y) then x :: l else y :: ins r end) acc) [] l.
+
+(* input: plan, fail_on_undefined, exit codes [(task, code)], choices, impl results [(task, status)], impl failed *)
+Definition check_sched (v : val) : val :=
+  let P := dPlan (dNth v 0) in
+  let fou := dB (dNth v 1) in
+  let codes := map (fun e => (dTask (dNth e 0), dnat (dNth e 1))) (dL (dNth v 2)) in
+  let code (t : task) : nat :=
+    match find (fun e => task_eqb t (fst e)) codes with Some e => snd e | None => 0 end in
+  let choices := map dChoice (dL (dNth v 3)) in
+  let impl_res := results_sorted (map (fun e => (dTask (dNth e 0), dNth e 1)) (dL (dNth v 4))) in
+  let impl_failed := dB (dNth v 5) in
+  let fuel := plan_size P in
+  let s := fold_left (fun s c => step P fou code (iter_sched P fou fuel s) c) choices (init) in
+  let s := iter_sched P fou fuel s in
+  let m_res := results_sorted (map (fun '(t, r) => (t, eStatus r)) (results s)) in
+  let finished := match ph s with Finished => true | _ => false end in
+  let enc l := VL (map (fun '(t, r) => VL [eTask t; r]) l) in
+  let agree := finished && Bool.eqb (failed s) impl_failed && val_eqb (enc m_res) (enc impl_res) in
+  VL [eB true; VL [enc m_res; eB (failed s); eB finished; enat (exit_status s)]; eB agree; eB agree].
+
 (* ---------- dispatch ---------- *)
 From Coq Require Import String.
 Open Scope string_scope.
@@ -408,4 +456,5 @@ Definition dispatch (name : str) (v : val) : val :=
   else if str_eqb name (bs "tracking") then check_tracking v
   else if str_eqb name (bs "crash") then check_crash v
   else if str_eqb name (bs "cfgfile") then check_cfgfile v
+  else if str_eqb name (bs "sched") then check_sched v
   else VL [].
